@@ -167,22 +167,65 @@ impl Prop for C19 {
             let fl = flat_of(&dom);
             let nrules = 1 + r.u(12);
             let mut rules: Vec<Rule> = Vec::new();
-            for k in 0..nrules {
+            // rules with selector lists: (index of the first member, number of members) — printed as `A, B{...}`
+            let mut groups: Vec<(usize, usize)> = Vec::new();
+            for _ in 0..nrules {
+                let origin = *r.pick(&[&Origin::Agent, &Origin::User, &Origin::Author]);
+                let important = r.p(25);
+                if r.p(30) && !fl.elems.is_empty() {
+                    // a selector list two of whose members match the same element with different specificities, and a
+                    // competing rule of the same origin and importance whose specificity lies between them (added after
+                    // the seeded change C19-selector-list-first-match-specificity was missed: a list's declarations
+                    // must compete with the specificity of the member that matches, not of the first one)
+                    let e = &fl.elems[r.u(fl.elems.len())];
+                    let name = e.node.name().to_string();
+                    if !name.is_empty() {
+                        let weak = Sel { compounds: vec![Simple { elem: Some(name.clone()), ..Default::default() }], combs: vec![] };
+                        let mut strong_s = Simple { elem: Some(name.clone()), ..Default::default() };
+                        let mut mid = Simple::default();
+                        if let Some(w) = e.node.attr("class").and_then(|c| c.split_whitespace().next().map(|x| x.to_string())) {
+                            strong_s.classes.push(w.clone());
+                            mid.classes.push(w);
+                        } else {
+                            strong_s.nth = Some((0, e.idx));
+                            mid.nth = Some((0, e.idx));
+                        }
+                        let strong = Sel { compounds: vec![strong_s], combs: vec![] };
+                        let mid = Sel { compounds: vec![mid], combs: vec![] };
+                        let k = rules.len();
+                        rules.push(Rule { sel: mid, origin, important, colour: ((k + 1) as u8, 100, 0) });
+                        let k = rules.len();
+                        let members = if r.p(75) { vec![weak, strong] } else { vec![strong, weak] };
+                        groups.push((k, members.len()));
+                        for m in members {
+                            rules.push(Rule { sel: m, origin, important, colour: ((k + 1) as u8, 100, 0) });
+                        }
+                        continue;
+                    }
+                }
                 let sel = if r.p(75) && !fl.elems.is_empty() { super::c20::targeted_pub(r, &fl) } else { refcss::gen_sel(r, ELEMS, 3) };
-                rules.push(Rule { sel, origin: *r.pick(&[&Origin::Agent, &Origin::User, &Origin::Author]), important: r.p(25), colour: ((k + 1) as u8, 100, 0) });
+                let k = rules.len();
+                rules.push(Rule { sel, origin, important, colour: ((k + 1) as u8, 100, 0) });
             }
             let mut cfg = Cfg::rich();
             cfg.use_doc_css = true;
             let mut sheets = [String::new(), String::new(), String::new()];
             let mut aux = Vec::new();
-            for rl in &rules {
+            let mut ri = 0;
+            while ri < rules.len() {
+                let n = groups.iter().find(|g| g.0 == ri).map(|g| g.1).unwrap_or(1);
+                let rl = &rules[ri];
                 let i = match rl.origin {
                     Origin::Agent => 0,
                     Origin::User => 1,
                     Origin::Author => 2,
                 };
-                sheets[i].push_str(&format!("{}{{color:{}{}}}\n", rl.sel.print(r), hexcol(rl.colour), if rl.important { " !important" } else { "" }));
-                aux.push(format!("{}~{}~{}~{}", i, rl.important as u8, rl.colour.0, super::c20::enc_sel_pub(&rl.sel)));
+                let printed: Vec<String> = rules[ri..ri + n].iter().map(|x| x.sel.print(r)).collect();
+                sheets[i].push_str(&format!("{}{{color:{}{}}}\n", printed.join(", "), hexcol(rl.colour), if rl.important { " !important" } else { "" }));
+                for m in &rules[ri..ri + n] {
+                    aux.push(format!("{}~{}~{}~{}", i, m.important as u8, m.colour.0, super::c20::enc_sel_pub(&m.sel)));
+                }
+                ri += n;
             }
             if !sheets[0].is_empty() {
                 cfg.agent_css = Some(sheets[0].clone());
